@@ -195,6 +195,15 @@ func c15Parse(ctx *Ctx) error {
 		if err := json.Unmarshal(b, &w); err != nil {
 			return err
 		}
+		var k struct {
+			Ops struct {
+				Kind string `json:"kind"`
+			} `json:"ops"`
+		}
+		_ = json.Unmarshal(b, &k)
+		if k.Ops.Kind == "nsconc" {
+			return c15NsConc(ctx)
+		}
 		if w.Ops.HTTP {
 			return c15HTTP(ctx)
 		}
